@@ -1,6 +1,7 @@
 from vlib import Check
 
 TRUSTED = [
+    "tie (T), added: the statement lists of the functions this property's model was transcribed from are regenerated from /repo on every run (Gen/Stmts.lean) and pinned against the committed transcription source by the kernel-decided theorem source_as_modelled; the step from statements to model is by reading and is what the differential runs check",
     "Lean 4.33.0 kernel; axioms of every theorem audited",
     "hand-written model Model/Dkg.lean (party: OnMsg first-value-wins tables, wait loops, combineShares, commit / reveal, validateCommitments, all-subsets check; session: honest parties on a broadcast layer that hands every honest receiver the same bytes per sender) "
     "tied by the harness component dkgstep: a real TBLS / TPS party driven in lockstep through the park hooks of its three wait loops, the other participants played by real backends whose traffic passes through the harness",
@@ -14,7 +15,7 @@ ASSUME = [
 
 def main():
     c = Check("C05")
-    c.prove(gen=[])
+    c.prove(gen=["stmts"])
     c.correspond("dkgstep")
     return c.finish(
         rule="60 (900) lockstep runs, alternating BLS / PS, n 2..5, every 2 <= t <= n, the party under test chosen at random; one run in four fault-free with arbitrary delivery order, the others with, per delivered message, one of: a duplicate of an earlier "
